@@ -87,6 +87,11 @@ def judge(ctx, E, a, f, GM, w, lats, hs):
             ctx.le("gravity at the equator = ge", abs(g - ge) / g0, 1e-14, route=r)
         if abs(lat) == 90.0:
             ctx.le("gravity at the poles = gp", abs(g - gp) / g0, 1e-13, route=r)
+        if float(lat) == int(lat):      # whole-number latitude / height typed as int
+            hi_ = int(round(hs[-1])) if len(hs) else 0
+            oi = call(lambda: (float(E.normal_gravity(int(lat))), float(E.normal_gravity(int(lat), hi_)), float(E.normal_gravity(float(lat), float(hi_)))))
+            if ctx.returned(oi, clause="no-exception[int latitude / height]", route=r):
+                ctx.le("int-typed latitude / height give the same gravity as floats", max(abs(oi.value[0] - g), abs(oi.value[1] - oi.value[2])) / g0, 1e-15, {"lat": lat, "h": hi_}, route=r)
         seq = [g] + gh
         ctx.ok("normal gravity decreases with height (0 .. 0.5 % of a)", all(x > y for x, y in zip(seq[:-1], seq[1:])), {"lat": lat, "heights": hs, "g": seq}, route=r)
 
